@@ -499,7 +499,11 @@ func (m *Msg) Build(mat *Material) p2pmsg.Message {
 		}
 		return out
 	case "eonpk":
-		return &p2pmsg.EonPublicKey{InstanceId: m.Inst, PublicKey: mat.Sets[0].EonPublicKey().Marshal(),
+		pk := mat.Sets[0].EonPublicKey().Marshal()
+		if m.Ident != "" {
+			pk = unhex(strings.TrimPrefix(m.Ident, "pk:")) // "pk:<hex>": other public key bytes ("pk:" = none)
+		}
+		return &p2pmsg.EonPublicKey{InstanceId: m.Inst, PublicKey: pk,
 			ActivationBlock: m.Block, KeyperConfigIndex: m.Eon, Eon: m.Eon}
 	case "trigger":
 		t := &p2pmsg.DecryptionTrigger{InstanceId: m.Inst, IdentityPreimage: unhex(m.Ident), BlockNumber: m.Block,
